@@ -130,7 +130,7 @@ func main() {
 			continue
 		}
 		for _, imp := range f.Imports {
-			if imp.Path.Value == `"sync/atomic"` {
+			if imp.Path.Value == `"sync/atomic"` || imp.Path.Value == `"runtime"` || imp.Path.Value == `"time"` {
 				usesAtomic = true
 			}
 		}
@@ -675,6 +675,23 @@ func verifAtom31[A, B, C, R any](site uint32, f func(A, B, C) R, a A, b B, c C) 
 	verifStep(site)
 	return f(a, b, c)
 }
+func verifCAS2[A, B any](site uint32, f func(A, B) bool, a A, b B) bool {
+	verifStep(site)
+	if f(a, b) {
+		return true
+	}
+	verifStep(site&^0x40000000 | 0x80000000)
+	return false
+}
+func verifCAS3[A, B, C any](site uint32, f func(A, B, C) bool, a A, b B, c C) bool {
+	verifStep(site)
+	if f(a, b, c) {
+		return true
+	}
+	verifStep(site&^0x40000000 | 0x80000000)
+	return false
+}
+func verifYield(site uint32, _ ...any) { verifStep(site) }
 
 `
 
@@ -714,7 +731,27 @@ func rewriteAtomics(files []*ast.File) {
 					obj = info.Uses[fun]
 				}
 				tf, ok := obj.(*types.Func)
-				if !ok || tf.Pkg() == nil || tf.Pkg().Path() != "sync/atomic" || call.Ellipsis.IsValid() {
+				if !ok || tf.Pkg() == nil || call.Ellipsis.IsValid() {
+					return true
+				}
+				if path := tf.Pkg().Path(); path == "runtime" && tf.Name() == "Gosched" && len(call.Args) == 0 ||
+					path == "time" && tf.Name() == "Sleep" && len(call.Args) == 1 {
+					// the caller gives up the processor: the simulator lets
+					// another task run (there is no clock to advance)
+					p := fset.Position(call.Pos())
+					rel, err := filepath.Rel(srcRoot, p.Filename)
+					if err != nil {
+						rel = filepath.Base(p.Filename)
+					}
+					id := len(sites)
+					sites = append(sites, site{fmt.Sprintf("%s:%d", rel, p.Line), fn, "yield " + tf.Name()})
+					atomicSites++
+					// the original function stays mentioned (its import stays used)
+					call.Args = append([]ast.Expr{&ast.BasicLit{Kind: token.INT, Value: fmt.Sprintf("%d|0x%x", id, uint32(spinFlag))}, call.Fun}, call.Args...)
+					call.Fun = &ast.Ident{Name: "verifYield"}
+					return true
+				}
+				if tf.Pkg().Path() != "sync/atomic" {
 					return true
 				}
 				sig := tf.Type().(*types.Signature)
@@ -724,6 +761,11 @@ func rewriteAtomics(files []*ast.File) {
 				case "verifAtom01", "verifAtom10", "verifAtom11", "verifAtom20", "verifAtom21", "verifAtom31":
 				default:
 					return true
+				}
+				if strings.HasPrefix(tf.Name(), "CompareAndSwap") {
+					// a failed CompareAndSwap is followed by a yield: the caller
+					// retries or waits for somebody else
+					name = fmt.Sprintf("verifCAS%d", np)
 				}
 				if len(call.Args) != np {
 					return true
